@@ -6,9 +6,10 @@ EXTENDS Appender
 
 CONSTANT Configs
 
-W(f) == [k |-> "w", f |-> f]
-D == [k |-> "d", f |-> 0]
-C(prog, cap, maxrot, early) == [prog |-> prog, cap |-> cap, maxrot |-> maxrot, early |-> early]
+W(f) == [k |-> "w", f |-> f, s |-> 2]
+D == [k |-> "d", f |-> 0, s |-> 2]
+\* IOV_MAX = 3 in the models: two 2-segment entries for one file in a batch need two writev calls
+C(prog, cap, maxrot, early) == [prog |-> prog, cap |-> cap, maxrot |-> maxrot, early |-> early, iovmax |-> 3]
 
 P_1x2 == << <<W(0), W(0)>> >>
 P_2x2 == << <<W(0), W(1)>>, <<W(0), W(0)>> >>
